@@ -1,3 +1,4 @@
+import WfModel.Replay
 import WfModel.Runner
 import WfModel.Context
 import WfModel.Serial
@@ -272,6 +273,8 @@ structure DState where
   st : State := initState
   run : Runner := { st := initState }
   autoIds : AutoIds := []
+  /-- the tick list of a pending `rebuild` (C11) -/
+  ticks : List Tick := []
 
 def autoIdEntry : P ((Nat × Option Nat) × Nat) := do
   let ty ← nat; let rq ← optNat; let w ← nat; pure ((ty, rq), w)
@@ -432,6 +435,23 @@ def step (d : DState) (line : String) : DState × String :=
       match rebuildAt d.cfg d.st ((d.run.log.map (·.1)).zip ps) now with
       | some s => (d, sState d.cfg s)
       | none => (d, "crash")
+    | _ => (d, "bad-op")
+  -- C11: `rebuild_state_from_ticks(init_state, ticks)` as the theorems model it (`replayTicks`): the current state is the
+  -- init state; `rbtick` appends one tick to the list; `rebuild <now0> <clk> <policy>` rewinds at `now0`, reduces every
+  -- tick at `clk`, and prints the rebuilt state, `running_steps()` of it and the context loaded from its serialisation
+  | ["rbclear"] => ({ d with ticks := [] }, "ok")
+  | "rbtick" :: ts =>
+    match tick ts with
+    | some (t, []) => ({ d with ticks := d.ticks ++ [t] }, "ok")
+    | _ => (d, "bad-op")
+  | "rebuild" :: ts =>
+    match (do let now0 ← int; let clk ← int; let p ← policy; pure (now0, clk, p)) ts with
+    | some ((now0, clk, p), []) =>
+      match replayTicks d.cfg p d.st now0 (fun _ => clk) d.ticks with
+      | none => (d, "crash")
+      | some rep =>
+        (d, sState d.cfg rep.st ++ " ;; A " ++ sList toString (activeSteps d.cfg rep.st) ++ " ;; D " ++
+          sState d.cfg (roundtrip d.cfg rep.st))
     | _ => (d, "bad-op")
   | ["rend"] => (d, sOutcome d.run.outcome ++ " ;; " ++ sList sPub d.run.stream)
   | ["rstream"] => (d, sList sPub d.run.stream)
